@@ -750,7 +750,7 @@ fn main() {
     // the workers in blocks, a line budget checked every so often), in one file and cut in two
     {
         let lens = tu_verif::enumerate::threshold_lengths(run.pick(6, 8));
-        run.bounds.insert("many_lines_phase".into(), json!(format!("line counts {lens:?} x (one file, two files cut in the middle) x max_size {{10, none}} x max_sequences {{none, n - 1}} x 3 modes x num_threads {{0, 1, 2, 3}}")));
+        run.bounds.insert("many_lines_phase".into(), json!(format!("line counts {lens:?} x (one file, two files cut in the middle) x max_size {{10, none}} x max_sequences {{none, n - 1}} x 3 modes x num_threads {{0, 1, 2, 3, 16, 17, 255}}")));
         let base = units + sus.len() + specs.len().div_ceil(64);
         for (k, n) in lens.iter().enumerate() {
             if !run.unit((base + k) as u64) {
@@ -762,7 +762,8 @@ fn main() {
                 for max_size in [Some(10), None] {
                     for max_sequences in [None, Some(*n - 1)] {
                         for (use_characters, char_grams) in MODES {
-                            check_case(&mut run, &mut ctx, &Case { files: files.clone(), max_size, max_sequences, use_characters, char_grams, threads: THREADS.to_vec(), term: vec![] });
+                            // (also thread counts around a power of two and the largest the parameter type holds)
+                            check_case(&mut run, &mut ctx, &Case { files: files.clone(), max_size, max_sequences, use_characters, char_grams, threads: vec![0, 1, 2, 3, 16, 17, 255], term: vec![] });
                         }
                     }
                 }
